@@ -5,6 +5,7 @@ CONSTANTS
   MaxBlocks = 2
   Layouts = {"plain"}
   MaxUnwind = 1
+  Features = {}
   Defect = "no_reissue"
   MaxReload = 0
 CONSTRAINT Bounded
